@@ -85,6 +85,8 @@ def guarded(fn, limit=TIMEOUT):
     After three calls that did not come back the limit drops to 0.25 s (an ordinary call takes well under a millisecond),
     so that a change which makes the search loop forever is reported in minutes, not hours."""
     global _timeouts
+    if _timeouts >= 40:
+        return ("timeout",)      # the run has its violation; do not spend minutes on more calls that do not come back
     if _timeouts >= 3:
         limit = min(limit, 0.25)
     old = signal.signal(signal.SIGALRM, _on_alarm)
